@@ -66,6 +66,7 @@ type Term struct {
 	Name string   // var / app name
 	Hi   int      // extract hi, or ext amount
 	Lo   int
+	KZ   uint64 // bits known to be zero (W<=64)
 }
 
 func (t *Term) IsConst() bool { return t.Op == OpConst }
@@ -121,11 +122,83 @@ func (c *Ctx) mk(t *Term) *Term {
 	}
 	t.ID = c.nextID
 	c.nextID++
+	t.KZ = knownZero(t)
 	c.tab[k] = t
 	if t.Op == OpVar {
 		c.Vars = append(c.Vars, t)
 	}
 	return t
+}
+
+// knownZero computes a mask of bits that are zero for every value of the term's variables.
+func knownZero(t *Term) uint64 {
+	if t.W == 0 || t.W > 64 {
+		return 0
+	}
+	m := mask(t.W)
+	switch t.Op {
+	case OpConst:
+		return ^t.Val & m
+	case OpAnd:
+		return (t.Args[0].KZ | t.Args[1].KZ) & m
+	case OpOr, OpXor:
+		return t.Args[0].KZ & t.Args[1].KZ & m
+	case OpConcat:
+		var kz uint64
+		for _, a := range t.Args {
+			if a.W > 64 {
+				return 0
+			}
+			kz = kz<<uint(a.W) | a.KZ
+		}
+		return kz & m
+	case OpExtract:
+		if t.Args[0].W > 64 {
+			return 0
+		}
+		return (t.Args[0].KZ >> uint(t.Lo)) & m
+	case OpZExt:
+		iw := t.Args[0].W
+		return (t.Args[0].KZ | (m &^ mask(iw))) & m
+	case OpSExt:
+		iw := t.Args[0].W
+		kz := t.Args[0].KZ
+		if kz&(uint64(1)<<uint(iw-1)) != 0 {
+			kz |= m &^ mask(iw)
+		}
+		return kz & m
+	case OpIte:
+		a, b := t.Args[1], t.Args[2]
+		kz := a.KZ & b.KZ
+		// ite(bit k of X set, X xor K, X) with bit k of K set: bit k of the result is zero
+		if k, x, ok := singleBitTest(t.Args[0]); ok {
+			if x == b && a.Op == OpXor && a.Args[0] == x && a.Args[1].IsConst() && a.Args[1].Big == nil && a.Args[1].Val&(uint64(1)<<uint(k)) != 0 {
+				// bit k is cleared on both sides; other bits are zero if zero in X and in K
+				kz |= b.KZ & (^a.Args[1].Val)
+				kz |= uint64(1) << uint(k)
+			}
+		}
+		return kz & m
+	}
+	return 0
+}
+
+// singleBitTest recognises conditions of the form "bit k of X is 1": not(X & 2^k == 0), or extract[k:k](X) == 1.
+func singleBitTest(c *Term) (int, *Term, bool) {
+	if c.Op == OpBNot && c.Args[0].Op == OpEq {
+		e := c.Args[0]
+		l, r := e.Args[0], e.Args[1]
+		if r.IsConst() && r.Big == nil && r.Val == 0 && l.Op == OpAnd && l.Args[1].IsConst() && l.Args[1].Big == nil {
+			mv := l.Args[1].Val
+			if mv != 0 && mv&(mv-1) == 0 {
+				return bits.TrailingZeros64(mv), l.Args[0], true
+			}
+		}
+	}
+	if c.Op == OpEq && c.Args[0].Op == OpExtract && c.Args[0].W == 1 && c.Args[1].IsConst() && c.Args[1].Val == 1 {
+		return c.Args[0].Lo, c.Args[0].Args[0], true
+	}
+	return 0, nil, false
 }
 
 func mask(w int) uint64 {
@@ -374,6 +447,17 @@ func (c *Ctx) bin(op Op, a, b *Term) *Term {
 		}
 		if a == b {
 			return a
+		}
+		if w <= 64 {
+			if b.IsConst() && (mask(w)&^a.KZ)&^b.Val == 0 {
+				return a
+			}
+			if a.IsConst() && (mask(w)&^b.KZ)&^a.Val == 0 {
+				return b
+			}
+			if a.KZ|b.KZ == mask(w) {
+				return c.SBV(0, w)
+			}
 		}
 		// and with low mask constant -> zero-extend of extract
 		if w <= 64 {
@@ -692,6 +776,16 @@ func (c *Ctx) mergeAdj(l, r *Term) *Term {
 	if l.Op == OpExtract && r.Op == OpExtract && l.Args[0] == r.Args[0] && l.Lo == r.Hi+1 {
 		return c.Extract(l.Args[0], l.Hi, r.Lo)
 	}
+	if l.Op == OpZExt {
+		if m := c.mergeAdj(l.Args[0], r); m != nil {
+			return c.ZExt(m, l.Hi)
+		}
+	}
+	if l.Op == OpNot && r.Op == OpNot {
+		if m := c.mergeAdj(l.Args[0], r.Args[0]); m != nil {
+			return c.BVNot(m)
+		}
+	}
 	return nil
 }
 
@@ -703,6 +797,12 @@ func (c *Ctx) Extract(a *Term, hi, lo int) *Term {
 		return a
 	}
 	w := hi - lo + 1
+	if a.W <= 64 && a.Op != OpConst {
+		rng := mask(w) << uint(lo)
+		if a.KZ&rng == rng {
+			return c.SBV(0, w)
+		}
+	}
 	switch a.Op {
 	case OpConst:
 		if a.Big != nil {
@@ -784,6 +884,13 @@ func (c *Ctx) ZExt(a *Term, k int) *Term {
 	}
 	if a.Op == OpZExt {
 		return c.ZExt(a.Args[0], a.Hi+k)
+	}
+	if a.Op == OpExtract && a.Lo == 0 && a.Args[0].W == a.W+k && a.W+k <= 64 {
+		t := a.Args[0]
+		hiMask := mask(t.W) &^ mask(a.W)
+		if t.KZ&hiMask == hiMask {
+			return t
+		}
 	}
 	return c.mk(&Term{Op: OpZExt, W: a.W + k, Args: []*Term{a}, Hi: k})
 }
@@ -1015,6 +1122,10 @@ func (c *Ctx) Not(a *Term) *Term {
 	}
 	if a.Op == OpBNot {
 		return a.Args[0]
+	}
+	// one-bit equality with a constant: flip the constant instead of negating
+	if a.Op == OpEq && a.Args[0].W == 1 && a.Args[1].IsConst() {
+		return c.Eq(a.Args[0], c.BV(a.Args[1].Val^1, 1))
 	}
 	return c.mk(&Term{Op: OpBNot, W: 0, Args: []*Term{a}})
 }
